@@ -1,5 +1,6 @@
 (* Extract/DrvC16.v — driver for C16: runs the very definitions the theorems of
    Props/C16.v are about.  Request: (op args...).  Extracted with ExtrOcamlBasic only. *)
+From PV Require Import Gen.PyFuns.
 From PV Require Import Base.Outcome Base.Prim Spec.PrimSpec.
 Open Scope string_scope.
 
@@ -9,6 +10,11 @@ Definition sx_dec {A} (f : A -> sx) (r : option (A * list Z)) : sx :=
   | None => sx_none
   end.
 
+(* the decoders translated from the live source (Gen/PyFuns.v); = the hand models of Base/Prim.v by
+   theorems C16_translated_uleb_is_model / C16_translated_sleb_is_model *)
+Definition dec_of_res {A} (r : res (A * list Z)) : option (A * list Z) :=
+  match r with Ok x => Some x | Err _ => None end.
+
 Definition len_dec (kind : Z) (le : bool) : dec Z :=
   if (kind =? 0)%Z then uleb_decode else uint_decode le (Z.to_nat kind).
 
@@ -17,8 +23,10 @@ Definition dispatch (req : sx) : sx :=
   let op := gS (nthx 0 l) in
   let a1 := nthx 1 l in let a2 := nthx 2 l in let a3 := nthx 3 l in
   (* models *)
-  if op =? "uleb" then sx_dec SI (uleb_decode (gB a1))
-  else if op =? "sleb" then sx_dec SI (sleb_decode (gB a1))
+  if op =? "uleb" then sx_dec SI (dec_of_res (gen_ULEB128_parse (gB a1)))
+  else if op =? "sleb" then sx_dec SI (dec_of_res (gen_SLEB128_parse (gB a1)))
+  else if op =? "uleb_hand" then sx_dec SI (uleb_decode (gB a1))
+  else if op =? "sleb_hand" then sx_dec SI (sleb_decode (gB a1))
   else if op =? "uint" then sx_dec SI (uint_decode (gbool a1) (gnat a2) (gB a3))
   else if op =? "sint" then sx_dec SI (sint_decode_n (gbool a1) (gnat a2) (gB a3))
   else if op =? "u24" then sx_dec SI (u24_decode (gbool a1) (gB a2))
